@@ -260,11 +260,47 @@ pub fn link_value(l: &LinkSpec) -> Value {
 /// `None` when the library cannot parse `signed` at all (the world is then vacuous).
 pub fn sign_value(signed: &Value, signers: &[usize], keyspecs: &[KeySpec]) -> Option<Value> {
     let bytes = serde_json::to_vec(signed).ok()?;
+    // a document is signed once: when the same party signs the same content again later in this process
+    // (the fault-free world first, then the same world with faults), the signature objects are the ones
+    // made the first time — also under the randomised schemes, whose bytes ring's entropy would otherwise
+    // make different each time. (A party listed twice signs twice: the n-th occurrence has its own entry.)
+    thread_local! {
+        static SIGNED_ONCE: std::cell::RefCell<BTreeMap<(Vec<u8>, KeySpec, usize), Value>> = std::cell::RefCell::new(BTreeMap::new());
+    }
+    let mut occ: BTreeMap<usize, usize> = BTreeMap::new();
+    let slots: Vec<(Vec<u8>, KeySpec, usize)> = signers
+        .iter()
+        .map(|k| {
+            let n = occ.entry(*k).or_default();
+            *n += 1;
+            (bytes.clone(), keys::normalize(keyspecs[*k]), *n - 1)
+        })
+        .collect();
+    let cached: Option<Vec<Value>> = SIGNED_ONCE.with(|c| {
+        let c = c.borrow();
+        slots.iter().map(|s| c.get(s).cloned()).collect()
+    });
+    if let Some(sigs) = cached {
+        return Some(json!({ "signatures": sigs, "signed": signed }));
+    }
     let meta = MetadataWrapper::try_from_bytes(&bytes).ok()?;
     let ks: Vec<_> = signers.iter().map(|k| keys::key(keyspecs[*k])).collect();
     let privs: Vec<&in_toto::crypto::PrivateKey> = ks.iter().map(|k| &k.private).collect();
     let mb = Metablock::new(meta, &privs).ok()?;
     let sigs = serde_json::to_value(&mb.signatures).ok()?;
+    if let Some(a) = sigs.as_array() {
+        if a.len() == slots.len() {
+            SIGNED_ONCE.with(|c| {
+                let mut c = c.borrow_mut();
+                if c.len() > 20_000 {
+                    c.clear();
+                }
+                for (s, v) in slots.iter().zip(a.iter()) {
+                    c.entry(s.clone()).or_insert_with(|| v.clone());
+                }
+            });
+        }
+    }
     Some(json!({ "signatures": sigs, "signed": signed }))
 }
 
